@@ -29,6 +29,7 @@ type FuncContract struct {
 	Pkg       string // package path the block belongs to ("" for trusted files: name is fully qualified)
 	Requires  []Clause
 	Ensures   []Clause
+	AtReturn  []Clause // checked at every return with the function's local variables in scope; not visible to callers
 	Modifies  []Clause
 	Preserves []Clause // open-world callee: everything may change except these locations
 	HasPreserves bool
@@ -114,7 +115,7 @@ type GlobalFact struct {
 }
 
 var clauseKeywords = map[string]bool{
-	"func": true, "requires": true, "ensures": true, "modifies": true, "preserves": true, "refinedby": true, "monitor": true, "protects": true, "strict": true, "track": true, "before": true, "panics": true, "maypanic": true, "nopanic": true,
+	"func": true, "requires": true, "ensures": true, "atreturn": true, "modifies": true, "preserves": true, "refinedby": true, "monitor": true, "protects": true, "strict": true, "track": true, "before": true, "panics": true, "maypanic": true, "nopanic": true,
 	"loop": true, "invariant": true, "decreases": true, "spec": true, "lemma": true, "induct": true,
 	"smt": true, "smtlate": true, "closed": true, "neversent": true, "chaninv": true, "immutableheap": true, "fieldinv": true, "inline": true, "sort": true, "global": true, "package": true, "ghost": true, "type": true, "trusted": true, "props": true, "use": true, "hdruse": true, "assert": true, "axiom": true, "pattern": true, "opaque": true,
 }
@@ -314,6 +315,15 @@ func (cs *Contracts) loadContractFile(path string, pkg string, goFile bool) erro
 			} else {
 				return fmt.Errorf("%s:%d: props outside func/lemma", path, l.no)
 			}
+		case "atreturn":
+			if curF == nil {
+				return fmt.Errorf("%s:%d: atreturn outside func", path, l.no)
+			}
+			c, err := mk(rest, l.no)
+			if err != nil {
+				return err
+			}
+			curF.AtReturn = append(curF.AtReturn, c)
 		case "requires", "ensures":
 			c, err := mk(rest, l.no)
 			if err != nil {
